@@ -53,11 +53,14 @@ def to_int(val: Any) -> int:
         and MAX_STR_INT != 0
         and len(val) > MAX_STR_INT
     ):
-        raise LiquidValueError(
-            f"integer string conversion limit ({MAX_STR_INT}) reached: "
-            f"value has {len(val)} digits",
-            token=None,
-        )
+        # The limit counts digits. A sign or surrounding whitespace is not one.
+        digits = len(val.strip().lstrip("+-" if isinstance(val, str) else b"+-"))
+        if digits > MAX_STR_INT:
+            raise LiquidValueError(
+                f"integer string conversion limit ({MAX_STR_INT}) reached: "
+                f"value has {digits} digits",
+                token=None,
+            )
     if (
         isinstance(val, Decimal)
         and MAX_STR_INT != 0
